@@ -13,7 +13,7 @@ from . import common
 sys.path.insert(0, os.path.join(common.ROOT, "gen"))
 import shapegen as sg  # noqa: E402
 
-PROPERTIES = ["C05", "C15", "C16"]
+PROPERTIES = ["C05", "C06", "C15", "C16"]
 
 FEATURES = ("std",)
 
@@ -25,7 +25,7 @@ def _env():
 
 
 def build_and_run(ctx, tag, modules, features=FEATURES, extra_deps="", per_crate=70, max_parallel=8,
-                  main_extra=""):
+                  main_extra="", extra_files=None):
     """modules: list of (idx, text). Returns (events_by_idx, compile_errors_by_idx, stats)."""
     base = os.path.join(common.OUT, "shapegen", ctx.prop, tag)
     if os.path.exists(base):
@@ -42,7 +42,8 @@ def build_and_run(ctx, tag, modules, features=FEATURES, extra_deps="", per_crate
         mods = [(f"s_{idx}", text) for idx, text in chunk]
         errors_by_idx = {}
         for attempt in range(3):
-            sg.write_crate(d, f"shapes_{k}", mods, features=features, extra_deps=extra_deps, main_extra=main_extra)
+            sg.write_crate(d, f"shapes_{k}", mods, features=features, extra_deps=extra_deps, main_extra=main_extra,
+                           extra_files=extra_files)
             ok, errors, exe, tail = sg.build_crate(d, tdir, _env())
             if ok:
                 break
